@@ -112,8 +112,16 @@ class Gen:
         names = list(params)
         lines: list[str] = []
         kind = rng.choice(["expr", "assign", "tuple_assign", "if_return", "if_elif_else_return", "if_fallthrough", "branch_assign",
-                           "branch_reassign_live", "post_if_statements", "nested_if", "outside"])
+                           "branch_reassign_live", "post_if_statements", "nested_if", "outside",
+                           "random_block", "random_block", "random_block", "random_block"])
         self.features.add(f"shape:{kind}")
+        if kind == "random_block":
+            self._n_local = 0
+            lines = self.block(list(params), rng.randint(1, 3), True, fns)
+            body = "\n".join("    " + ln for ln in lines)
+            text = f"def {name}({', '.join(params)}):\n{body}\n"
+            self.features |= block_features(text)
+            return text, set(self.features)
         E = lambda d=2: self.expr(names, d, fns)  # noqa: E731
         C = lambda: self.cond(names)  # noqa: E731
         if kind == "expr":
@@ -203,6 +211,55 @@ class Gen:
         body = "\n".join("    " + ln for ln in lines)
         return f"def {name}({sig}):\n{body}\n", set(self.features)
 
+    def block(self, names: list[str], depth: int, must_return: bool, fns: list[tuple[str, int]] | None, *, top: bool = True) -> list[str]:
+        """A random statement block: fresh assignments, non-idempotent re-assignments of parameters and locals,
+        swaps, if/elif/else whose branches are blocks again (possibly consisting of guards only), early returns.
+        `names` is extended by the locals that are defined on every path that leaves the block."""
+        rng = self.rng
+        lines: list[str] = []
+        for _ in range(rng.randint(1, 3)):
+            r = rng.random()
+            if r < 0.25:
+                v = f"u{self._n_local}"
+                self._n_local += 1
+                lines.append(f"{v} = {self.expr(names, 1, fns)}")
+                names.append(v)
+            elif r < 0.5:
+                x = rng.choice(names)
+                lines.append(rng.choice([f"{x} = {x} * 2.0", f"{x} = {x} + {self.expr(names, 1, fns)}", f"{x} = {self.expr(names, 0)} - {x}"]))
+                self.features.add("reassign")
+            elif r < 0.57 and len(names) >= 2:
+                a, b = rng.sample(names, 2)
+                lines.append(f"{a}, {b} = {b}, {a}")
+                self.features.add("tuple_swap")
+            elif r < 0.9 and depth > 0:
+                lines.append(f"if {self.cond(names, 0)}:")
+                if rng.random() < 0.3:
+                    # a branch that binds nothing and may fall through: guards only
+                    lines += [f"    if {self.cond(names, 0)}:", f"        return {self.expr(names, 1, fns)}"]
+                else:
+                    lines += ["    " + ln for ln in self.block(list(names), depth - 1, False, fns, top=False)]
+                q = rng.random()
+                if q < 0.25:
+                    lines.append(f"elif {self.cond(names, 0)}:")
+                    lines += ["    " + ln for ln in self.block(list(names), depth - 1, False, fns, top=False)]
+                if q < 0.5:
+                    lines.append("else:")
+                    lines += ["    " + ln for ln in self.block(list(names), depth - 1, False, fns, top=False)]
+                if rng.random() < 0.5:
+                    x = rng.choice(names)
+                    lines.append(rng.choice([f"{x} = {x} * 2.0", f"{x} = {x} + {self.expr(names, 0)}"]))
+                    self.features.add("reassign")
+            elif not top:
+                lines.append(f"return {self.expr(names, 1, fns)}")
+                return lines
+        if not lines:
+            x = rng.choice(names)
+            lines.append(f"{x} = {x} * 2.0")
+        if must_return:
+            lines.append(f"return {self.expr(names, 2, fns)}")
+        return lines
+
     def module(self, nfun: int = 6) -> tuple[str, list[dict]]:
         rng = self.rng
         head = f'"""generated"""\nimport math\nimport {self.helper}\nfrom {self.helper} import h2\n\nC1 = 1.25\n\n\n'
@@ -219,3 +276,46 @@ class Gen:
             if not any(f.startswith("outside") for f in feats):
                 fns.append((name, npar))
         return "".join(src), meta
+
+
+def block_features(src: str) -> set[str]:
+    """Structural facets of a generated function that the evidence should show."""
+    import ast
+
+    out: set[str] = set()
+    fn = ast.parse(src).body[0]
+
+    def falls_through(stmts: list) -> bool:
+        last = stmts[-1]
+        if isinstance(last, ast.Return):
+            return False
+        if isinstance(last, ast.If):
+            return falls_through(last.body) or not last.orelse or falls_through(last.orelse)
+        return True
+
+    def reads(node: ast.AST) -> set[str]:
+        return {n.id for n in ast.walk(node) if isinstance(n, ast.Name) and isinstance(n.ctx, ast.Load)}
+
+    def visit(stmts: list, depth: int) -> None:
+        for i, st in enumerate(stmts):
+            if not isinstance(st, ast.If):
+                continue
+            out.add(f"if_depth:{min(depth + 1, 3)}")
+            rest = stmts[i + 1:]
+            non_idem = any(isinstance(r, ast.Assign) and any(isinstance(t, ast.Name) and t.id in reads(r.value) for t in r.targets) for r in rest)
+            for br in (st.body, st.orelse):
+                if not br:
+                    continue
+                has_assign = any(isinstance(n, ast.Assign) for b in br for n in ast.walk(b))
+                if falls_through(br) and non_idem:
+                    out.add("branch_falls_through_into_self_referential_reassignment")
+                    if not has_assign:
+                        out.add("guard_only_branch_falls_through_into_self_referential_reassignment")
+                if has_assign and falls_through(br):
+                    out.add("branch_assigns_and_falls_through")
+                visit(br, depth + 1)
+            if not st.orelse and rest:
+                out.add("if_without_else_followed_by_statements")
+
+    visit(fn.body, 0)
+    return out
